@@ -168,3 +168,43 @@ fn concat_arrays__absent_between_present() {
     std::mem::forget(got);
     std::mem::forget(it);
 }
+
+/// Two one-byte Bytes arguments, each present or a typed absence.
+#[kani::proof]
+#[kani::stub(std::mem::drop, crate::lhs_types::verif_kani::common::mem_drop__releases_nothing_observable)]
+#[kani::unwind(3)]
+fn concat_bytes__two_args_present_in_order() {
+    let a: [u8; 1] = kani::any();
+    let b: [u8; 1] = kani::any();
+    let pa: bool = kani::any();
+    let pb: bool = kani::any();
+    let args: [Result<LhsValue<'_>, Type>; 2] = [
+        if pa { Ok(LhsValue::Bytes(Bytes::Borrowed(&a[..]))) } else { Err(Type::Bytes) },
+        if pb { Ok(LhsValue::Bytes(Bytes::Borrowed(&b[..]))) } else { Err(Type::Bytes) },
+    ];
+    let mut it = args.into_iter();
+    let got = concat_impl(&mut it);
+    match &got {
+        Some(LhsValue::Bytes(r)) => {
+            assert!(pa || pb, "absent if all arguments are absent");
+            if pa && pb {
+                assert!(r.len() == 2 && r[0] == a[0] && r[1] == b[0], "present arguments joined in order");
+            } else if pa {
+                assert!(r.len() == 1 && r[0] == a[0], "exactly the present argument");
+            } else {
+                assert!(r.len() == 1 && r[0] == b[0], "exactly the present argument");
+            }
+        }
+        None => {
+            assert!(!pa && !pb, "present arguments give a present result");
+        }
+        Some(_) => {
+            assert!(false, "bytes arguments give a bytes result");
+        }
+    }
+    kani::cover!(pa && pb);
+    kani::cover!(!pa && pb, "leading absence");
+    kani::cover!(!pa && !pb, "all absent");
+    std::mem::forget(got);
+    std::mem::forget(it);
+}
